@@ -251,7 +251,9 @@ func H_C07_Pipeline(v *verifrt.T) {
 		go broker.Start(stop, done)
 		// bounded liveness: the one-shot run ends before 200 timers have fired
 		// (poll delays, back-off sleeps, statistics tickers)
-		v.QuiesceTimers(200)
+		for r := 0; r < 200 && len(done) == 0; r++ {
+			v.QuiesceTimers(1)
+		}
 		if len(done) == 0 {
 			v.Assert(false, "C07 the sender finishes its work: every file it transmitted is confirmed, marked done and the run ends")
 		}
